@@ -73,7 +73,7 @@ class Prop(BaseProp):
                 names.append(nm)
             if rng.random() < 0.05:
                 ops.append(['addbad', rng.choice(['none', 'int', 'bytes'])])
-            ops.append(['add', nm, i + 1])
+            ops.append(['add', nm, i + 1 if rng.random() < 0.7 else rng.choice([1, 2])])      # now and then a value several names share (a key and its aliases)
             if rng.random() < 0.3:
                 q = gen.variant(rng, rng.choice(names)) if names and rng.random() < 0.6 else gen_name(rng, pool)
                 ops.append([rng.choice(['get', 'exists', 'prefix']), q])
